@@ -1577,10 +1577,32 @@ class BuiltinsMixin(object):
             return [(path, App('boolsum', *items))]
         return [(path, App('sum', *[self.snapshot(a, path) for a in args]))]
 
+    def _boolish(self, x):
+        return (isinstance(x, App) and x.op in (
+            'in', 'cmp', 'not', 'and', 'or', 'isinstance', 'feq')) or \
+            (isinstance(x, Const) and isinstance(x.v, bool))
+
     def bi_any(self, args, kw, path, node):
+        items = self.concrete_iter(args[0], path) if len(args) == 1 else None
+        if items is not None and all(self._boolish(x) for x in items):
+            # any([c1, .., cn]) over boolean conditions is their disjunction
+            if any(isinstance(x, Const) and x.v for x in items):
+                return [(path, Const(True))]
+            rest = [x for x in items if not isinstance(x, Const)]
+            if not rest:
+                return [(path, Const(False))]
+            return [(path, rest[0] if len(rest) == 1 else App('or', *rest))]
         return [(path, App('any', *[self.snapshot(a, path) for a in args]))]
 
     def bi_all(self, args, kw, path, node):
+        items = self.concrete_iter(args[0], path) if len(args) == 1 else None
+        if items is not None and all(self._boolish(x) for x in items):
+            if any(isinstance(x, Const) and not x.v for x in items):
+                return [(path, Const(False))]
+            rest = [x for x in items if not isinstance(x, Const)]
+            if not rest:
+                return [(path, Const(True))]
+            return [(path, rest[0] if len(rest) == 1 else App('and', *rest))]
         return [(path, App('all', *[self.snapshot(a, path) for a in args]))]
 
     def bi_getattr(self, args, kw, path, node):
